@@ -31,7 +31,7 @@ impl Prop for C12 {
         }
     }
     fn rule(&self) -> &'static str {
-        "one run = one generated program executed honestly; the auxiliary segment is built under seeded non-degenerate challenges (twice, with two independent challenge sets) and every running-product / running-sum column must start and end (last non-random row) at its specified value: p1, p3 1->1; p2 program-hash row -> 1; stack overflow column per inputs/outputs; b_range 1->1; chiplets virtual table and bus 1->1 (with a kernel: see DESIGN). Non-trivial = execution succeeded and the columns were built; distinct = digest of (source, inputs, advice, challenges)."
+        "one run = one generated program executed honestly; the auxiliary segment is built under seeded non-degenerate challenges (twice, with two independent challenge sets) and every running-product / running-sum column must start and end (last non-random row) at its specified value: p1, p3 1->1; p2 program-hash row -> 1; stack overflow column per inputs/outputs; b_range 1->1; chiplets virtual table and bus 1->1 (with a kernel: see DESIGN). In addition the range checker is recounted literally: the multiset of values requested by u32-operation rows (helper registers) and memory rows (d0, d1) of the stored trace must equal the multiset given by the range checker's (value, multiplicity) rows. Non-trivial = execution succeeded and the columns were built; distinct = digest of (source, inputs, advice, challenges)."
     }
     fn generate(&self, rng: &mut Rng, _tier: Tier, _index: u64) -> Value {
         if rng.chance(1, 40) {
@@ -96,6 +96,50 @@ impl Prop for C12 {
         }
         for o in &ops_seen {
             out.count(&format!("reach:requester|{}", op_name(*o)));
+        }
+        // Range checker, literally as multisets and without any challenge: the values requested by the
+        // rows of the stored trace (four helper registers of every u32 operation with opcode prefix
+        // 100, d0 and d1 of every memory chiplet row) against the (value, multiplicity) rows of the
+        // range checker. The b_range column itself is built from recorded hints, not from these
+        // cells, so its terminal value alone does not tie the two together.
+        {
+            use miden_air::trace::chiplets::{MEMORY_D0_COL_IDX, MEMORY_D1_COL_IDX};
+            use miden_air::trace::decoder::DECODER_USER_OP_HELPERS_OFFSET;
+            use miden_air::trace::range::{M_COL_IDX, V_COL_IDX};
+            use miden_air::trace::CHIPLETS_OFFSET;
+            let g = crate::model::tracecols::g;
+            let mut bal: std::collections::BTreeMap<u64, i128> = Default::default();
+            let (mut n_stack, mut n_mem) = (0u64, 0u64);
+            for r in 0..len - 1 {
+                if opcode_at(&main, r) >> 4 == 0b100 {
+                    for i in 0..4 {
+                        *bal.entry(g(&main, DECODER_USER_OP_HELPERS_OFFSET + i, r)).or_insert(0) += 1;
+                    }
+                    n_stack += 4;
+                }
+                if g(&main, CHIPLETS_OFFSET, r) == 1 && g(&main, CHIPLETS_OFFSET + 1, r) == 1 && g(&main, CHIPLETS_OFFSET + 2, r) == 0 {
+                    *bal.entry(g(&main, MEMORY_D0_COL_IDX, r)).or_insert(0) += 1;
+                    *bal.entry(g(&main, MEMORY_D1_COL_IDX, r)).or_insert(0) += 1;
+                    n_mem += 2;
+                }
+                let m = g(&main, M_COL_IDX, r);
+                if m != 0 {
+                    *bal.entry(g(&main, V_COL_IDX, r)).or_insert(0) -= m as i128;
+                }
+            }
+            let off: Vec<(u64, i128)> = bal.iter().filter(|(_, c)| **c != 0).map(|(v, c)| (*v, *c)).take(6).collect();
+            if !off.is_empty() {
+                let who = if n_mem > 0 && n_stack == 0 { "memory" } else if n_stack > 0 && n_mem == 0 { "stack" } else { "mixed" };
+                out.violate(format!("C12/multiset/range-checker/{}", who), format!("requested values and range-checker rows differ; (value, requests minus responses) = {:?} ({} stack requests, {} memory requests)", off, n_stack, n_mem));
+            } else {
+                out.count("reach:balanced|range-checker|multiset-recount");
+                if n_mem > 0 {
+                    out.count("probe:range-requests-from-memory");
+                }
+                if n_stack > 0 {
+                    out.count("probe:range-requests-from-u32-ops");
+                }
+            }
         }
         let has_kernel = !program.kernel().is_empty();
         // RCOMBBASE rows whose operands the bus request cannot represent (DESIGN F26): pointers that
